@@ -479,3 +479,29 @@ func TestReplay(t *testing.T) {
 		rec.Fail(t, "text", in, "%v", err)
 	}
 }
+
+// ---------- native fuzz target (thorough tier; `go test -fuzz`) ----------
+
+// FuzzAccepted submits arbitrary short texts (coverage guided) to the oracle for arbitrary texts: accepted by either
+// entry point => whole-text sentence of the documented grammar, and both entry points agree.
+func FuzzAccepted(f *testing.F) {
+	for _, s := range []string{`a`, `(a|b)*c`, `[^a-z0-9_]+?`, `a{2,3}`, `a{2,}?`, `\x41\x00E9`, `[[:alpha:]\d]`, `\p{Lu}`, `^a$`, `a)`, `a|`, `a**`, `a{,2}`, `a\`, `[z-a]`, `a{3,1}`, `[a-]`, `(?:a)`, `\/`, `[\x41-\x5A]`} {
+		f.Add(s)
+	}
+	f.Fuzz(func(t *testing.T, s string) {
+		if len(s) > 40 || expansive(s) || strings.Contains(s, `\x`) && wideEscape(s) {
+			return
+		}
+		if _, err := checkText(s); err != nil {
+			rec.SetTest("FuzzAccepted")
+			rec.WriteReplay("text", input{Text: s, Mode: "any"}, err.Error())
+			t.Fatalf("%v", err)
+		}
+	})
+}
+
+var wideRe = regexp.MustCompile(`\\x[0-9A-F]{5,8}`)
+
+// wideEscape: escapes of five and more digits can name end points far apart (legitimately expensive ranges) or no
+// code point at all; the generated checks cover them with chosen values, the fuzzer stays below them.
+func wideEscape(s string) bool { return wideRe.MatchString(s) }
